@@ -175,6 +175,14 @@ func main() {
 	}
 	syscall.Dup2(2, 1)
 	proto := os.NewFile(uintptr(protoFd), "protocol")
+	if a := os.Getenv("VERIF_CHILD_ARM"); a != "" {
+		// "N" or "N:filter": die at the N-th (matching) write point of the start-up itself (second crash during recovery)
+		parts := strings.SplitN(a, ":", 2)
+		fmt.Sscan(parts[0], &armN)
+		if len(parts) == 2 {
+			armFilter = parts[1]
+		}
+	}
 	dvid.SetVerifHook(hook)
 	// --- the calls of cmd/dvid DoServe, in order
 	if err := server.LoadConfig(os.Args[1]); err != nil {
